@@ -69,7 +69,74 @@ def coords_for(pid, rng=None, mode="walk"):
     return xyz
 
 
-def make_tree(pid, xyz=None, r=None, types=None, **extra):
+# Storage layout of the columns handed to the Tree constructor is part of the input space: the constructor keeps an array as given
+# (`padding1d` returns `v[:n]`, a view) when its dtype already fits, so the tree's columns may be strided views of a caller's table,
+# views that do not own their storage, read-only arrays, or fresh conversions of wider arrays / lists.
+LAYOUTS = ("separate", "c-table", "f-table", "strided", "readonly", "wide", "lists")
+SWC_COLUMNS = ("id", "type", "x", "y", "z", "r", "pid")
+CURRENT_LAYOUT = ["separate"]
+
+
+class using_layout:
+    """`with using_layout(name): ...` -- every make_tree inside that does not name a layout itself uses this one"""
+
+    def __init__(self, layout):
+        self.layout = layout
+
+    def __enter__(self):
+        self.saved = CURRENT_LAYOUT[0]
+        CURRENT_LAYOUT[0] = self.layout
+
+    def __exit__(self, *exc):
+        CURRENT_LAYOUT[0] = self.saved
+
+
+def lay_out(cols, layout):
+    """cols: name -> contiguous 1-D array of the column's final dtype.  Returns name -> what is handed to the constructor:
+    separate  the arrays themselves (each owns its storage)
+    c-table   columns of equal dtype are column slices `m[:, j]` of one C-ordered (n, k) table, k >= 2: strided views
+    f-table   the same with an F-ordered table: contiguous views that do not own their storage
+    strided   every column is `buf[::2]` of an array twice as long
+    readonly  separate arrays with `flags.writeable = False` (a write through the tree must raise exactly as a write into the array does)
+    wide      the SWC columns as float64 / int64 arrays of the same values (the constructor converts: fresh arrays); others as `separate`
+    lists     the SWC columns as Python lists; others as `separate`"""
+    if layout == "separate":
+        return dict(cols)
+    out = {}
+    if layout in ("c-table", "f-table"):
+        by_dtype = {}
+        for k, a in cols.items():
+            by_dtype.setdefault(a.dtype.str, []).append(k)
+        for names in by_dtype.values():
+            first = cols[names[0]]
+            table = np.zeros((len(first), max(2, len(names))), dtype=first.dtype, order="C" if layout == "c-table" else "F")
+            for j, k in enumerate(names):
+                table[:, j] = cols[k]
+            for j, k in enumerate(names):
+                out[k] = table[:, j]
+        return {k: out[k] for k in cols}
+    for k, a in cols.items():
+        if layout == "strided":
+            buf = np.zeros(2 * len(a), dtype=a.dtype)
+            buf[::2] = a
+            buf[1::2] = a[::-1]
+            out[k] = buf[::2]
+        elif layout == "readonly":
+            out[k] = a.copy()
+            out[k].flags.writeable = False
+        elif layout == "wide" and k in SWC_COLUMNS:
+            out[k] = a.astype(np.float64 if a.dtype.kind == "f" else np.int64)
+        elif layout == "lists" and k in SWC_COLUMNS:
+            out[k] = a.tolist()
+        elif layout in ("wide", "lists"):
+            out[k] = a
+        else:
+            raise ValueError(f"unknown layout {layout!r}")
+    return out
+
+
+def make_tree(pid, xyz=None, r=None, types=None, layout=None, **extra):
+    """`layout` (one of LAYOUTS; default: the current one, see `using_layout`) says how the columns are stored when the constructor gets them"""
     from swcgeom.core import Tree
 
     n = len(pid)
@@ -81,10 +148,13 @@ def make_tree(pid, xyz=None, r=None, types=None, **extra):
         r = np.array([1.0 + 0.25 * (i % 3) for i in range(n)], dtype=np.float32)
     if types is None:
         types = np.array([1] + [3 if (i % 2) else 2 for i in range(1, n)], dtype=np.int32)
-    return Tree(
-        n, id=np.arange(n, dtype=np.int32), type=np.array(types, dtype=np.int32),
-        x=xyz[:, 0].copy(), y=xyz[:, 1].copy(), z=xyz[:, 2].copy(), r=np.array(r, dtype=np.float32), pid=pid, **extra,
-    )
+    cols = dict(id=np.arange(n, dtype=np.int32), type=np.array(types, dtype=np.int32),
+                x=xyz[:, 0].copy(), y=xyz[:, 1].copy(), z=xyz[:, 2].copy(), r=np.array(r, dtype=np.float32), pid=pid)
+    layout = layout or CURRENT_LAYOUT[0]
+    if layout == "separate":
+        return Tree(n, **cols, **extra)
+    cols.update({k: np.array(v) for k, v in extra.items()})
+    return Tree(n, **lay_out(cols, layout))
 
 
 def tree_spec(t):
